@@ -275,6 +275,7 @@ type BatchOutcome struct {
 	Windows     int
 	Tasks       int
 	DecisionCap bool
+	Victim      *diskVictim // line whose result streams met injected write errors (excluded from summary and solo oracles)
 }
 
 // RunBatch executes lines through the real dispatcher under the seeded scheduler.
